@@ -48,15 +48,34 @@ def compare_cell(case, obs):
     return None
 
 
-def drift_cell(case, obs):
+def drift_against(case, obs, out_key, codes_key):
     if obs.get("panic"):
-        return None if case["mout"].startswith("panic") else "the compiler panics (%s), the model says %s" % (obs["panic"], case["mout"])
-    if case["mout"].startswith("panic"):
-        return "the model panics (%s), the compiler does not" % case["mout"]
+        return None if case[out_key].startswith("panic") else "the compiler panics (%s), the model says %s" % (obs["panic"], case[out_key])
+    if case[out_key].startswith("panic"):
+        return "the model panics (%s), the compiler does not" % case[out_key]
     at_line = sorted(set(c for c, l in obs["diags"] if l == obs["line"] and c in FAMILY))
-    if at_line != sorted(case["mcodes"]):
-        return "codes on the construct %s, model %s (steps %s)" % (at_line, case["mcodes"], case["taken"])
+    if at_line != sorted(case[codes_key]):
+        return "codes on the construct %s, model %s (steps %s)" % (at_line, case[codes_key], case["taken"])
     return None
+
+
+def drift_cell(case, obs):
+    """Two models of the algorithm are emitted: the typer as it is meant (iout/icodes) and the typer with
+    the three unification quirks of the pinned tree (mout/mcodes, findings F5-F7).  A cell agrees with the
+    model if it agrees with either; which one the code follows is reported in the evidence."""
+    ideal = drift_against(case, obs, "iout", "icodes")
+    if ideal is None:
+        return None
+    pinned = drift_against(case, obs, "mout", "mcodes")
+    if pinned is None:
+        return None
+    return ideal
+
+
+def follows(case, obs):
+    i = drift_against(case, obs, "iout", "icodes") is None
+    p = drift_against(case, obs, "mout", "mcodes") is None
+    return "both" if i and p else ("ideal" if i else ("pinned-quirks" if p else "neither"))
 
 
 def shape_tag(case):
@@ -102,6 +121,7 @@ def replay_cells(rep, tier, selftest):
     if len(observations) != len(cases):
         raise common.ToolError("replay returned %d observations for %d cells" % (len(observations), len(cases)))
     agree = 0
+    which_model = collections.Counter()
     nontriv = set()
     per_ctx = collections.Counter()
     verdicts = collections.Counter()
@@ -116,13 +136,14 @@ def replay_cells(rep, tier, selftest):
             key = obs["key"] + shape_tag(case) + " :: " + (("panic=" + obs["panic"]) if kind == "panic" else kind)
             rep.violation("cell", key, {"case": case, "observed": obs, "problem": kind, "message": msg,
                                         "how": "bin/check C08 --replay <this file>"})
+        which_model[follows(case, obs)] += 1
         d = drift_cell(case, obs)
         if d:
             rep.note_drift("%s: %s" % (obs["key"], d))
         else:
             agree += 1
-    log("[replay] %d cells replayed on the real compiler (%s), %d violations so far, model agreement %d/%d" %
-        (len(cases), dict(verdicts), len(rep.violations), agree, len(cases)))
+    log("[replay] %d cells replayed on the real compiler (%s), %d violations so far, model agreement %d/%d %s" %
+        (len(cases), dict(verdicts), len(rep.violations), agree, len(cases), dict(which_model)))
     if not r.ok and not rep.violations and not rep.known_hits:
         rep.note_drift("TLC reports %s violated but no replayed cell shows it on the real code" % r.violated)
     selftests = {}
@@ -140,7 +161,8 @@ def replay_cells(rep, tier, selftest):
             if os.path.exists(f):
                 os.remove(f)
     return {"tlc": r, "cases": cases, "observations": observations, "agree": agree, "nontrivial": nontriv,
-            "per_ctx": dict(per_ctx), "verdicts": dict(verdicts), "selftests": selftests, "cfg": cfg}
+            "per_ctx": dict(per_ctx), "verdicts": dict(verdicts), "selftests": selftests, "cfg": cfg,
+            "which_model": dict(which_model)}
 
 
 def bad_lines(result):
@@ -282,6 +304,7 @@ def run(rep, tier, seed, selftest):
         "cells_per_context": cells["per_ctx"],
         "verdicts": cells["verdicts"],
         "model_agreement": "%d/%d" % (cells["agree"], len(cases)),
+        "cells_following_model": cells["which_model"],
         "tlc_config": cells["cfg"],
         "calleffects_programs": ce["programs"],
         "calleffects_executed": ce["executed"],
